@@ -71,3 +71,25 @@ def hash_consistent(a, b):
     if a.__eq__(b):
         return a.__hash__() == b.__hash__()
     return True
+
+
+from maze_dataset.constants import VOCAB  # noqa: E402,F401  (named by the clauses of the lemma's contract)
+
+
+def prompt_layout(seq, adj_list, origin, target, path, is_untargeted, is_unsolved):
+    "C06: the token sequence of a maze = the full region layout, trimmed to the regions the maze kind has"
+    return seq._trim_if_unsolved_maze(seq._sequence_tokens(adj_list, origin, target, path), is_untargeted, is_unsolved)
+
+
+def prompt_layout_aop(seq, adj_list, origin, target, path, is_untargeted, is_unsolved):
+    "the same composition for the AOP sequencer"
+    return seq._trim_if_unsolved_maze(seq._sequence_tokens(adj_list, origin, target, path), is_untargeted, is_unsolved)
+
+
+from maze_dataset.token_utils import get_adj_list_tokens, get_origin_tokens, get_path_tokens, get_target_tokens  # noqa: E402
+
+
+def regions_roundtrip(seq, adj_list, origin, target, path):
+    "C06/C07: the region extractors of token_utils recover from a full AOTP sequence exactly the four region token lists it was built from"
+    toks = seq._sequence_tokens(adj_list, origin, target, path)
+    return get_adj_list_tokens(toks), get_origin_tokens(toks), get_target_tokens(toks), get_path_tokens(toks, True)
